@@ -53,6 +53,25 @@ class Intersector:
         """
         return self.num_intersects
 
+    @staticmethod
+    def _sameFiber(get_next, trace0, point0, i0, trace1, point1, i1):
+        """Move both fingers onto rows of the same fiber
+
+        A fiber can end with a traced element that is never compared (the
+        other operand ran out first). No comparison may span two fibers, so
+        such rows are skipped without being counted.
+
+        """
+        while point0 is not None and point1 is not None \
+                and point0[:-1] != point1[:-1]:
+
+            if point0[:-1] < point1[:-1]:
+                point0, i0 = get_next(trace0, i0)
+            else:
+                point1, i1 = get_next(trace1, i1)
+
+        return point0, i0, point1, i1
+
 class LeaderFollowerIntersector(Intersector):
     """Class for counting intersections with a leader-follower intersector"""
 
@@ -127,10 +146,11 @@ class SkipAheadIntersector(Intersector):
         point0, i0 = get_next(trace0, i0)
         point1, i1 = get_next(trace1, i1)
 
+        point0, i0, point1, i1 = Intersector._sameFiber(
+            get_next, trace0, point0, i0, trace1, point1, i1)
+
         if point0 is None or point1 is None:
             return
-
-        assert point0 is not None and point1 is not None and point0[:-1] == point1[:-1]
 
         fiber = point0[:-1]
         curr = None
@@ -167,6 +187,9 @@ class SkipAheadIntersector(Intersector):
                 # finger to the next fiber
                 if point1 is None or fiber != point1[:-1]:
                     point0, i0 = get_next(trace0, i0)
+
+            point0, i0, point1, i1 = Intersector._sameFiber(
+                get_next, trace0, point0, i0, trace1, point1, i1)
 
             old_fiber = fiber
             if point0:
@@ -223,10 +246,11 @@ class TwoFingerIntersector(Intersector):
         point0, i0 = get_next(trace0, i0)
         point1, i1 = get_next(trace1, i1)
 
+        point0, i0, point1, i1 = Intersector._sameFiber(
+            get_next, trace0, point0, i0, trace1, point1, i1)
+
         if point0 is None or point1 is None:
             return
-
-        assert point0 is not None and point1 is not None and point0[:-1] == point1[:-1]
 
         fiber = point0[:-1]
 
@@ -254,6 +278,9 @@ class TwoFingerIntersector(Intersector):
                 # finger to the next fiber
                 if point1 is None or fiber != point1[:-1]:
                     point0, i0 = get_next(trace0, i0)
+
+            point0, i0, point1, i1 = Intersector._sameFiber(
+                get_next, trace0, point0, i0, trace1, point1, i1)
 
             if point0:
                 fiber = point0[:-1]
